@@ -154,3 +154,17 @@ Proof.
     assert (Hh : heldg s = []) by (destruct (heldg s); [reflexivity|simpl in Hac; lia]).
     split; [exact Hh|]. split; [eauto|]. rewrite Hh in I. apply inv_quiescent. exact I.
 Qed.
+
+(* on an idle pilot (nothing held) an allocation attempt never ends in "wait":
+   the task is started if the search finds a placement and failed if not --
+   a task waiting alone is started as soon as everything is released, or failed
+   if it cannot fit even the idle pilot *)
+Theorem idle_pilot_decides ns0 c s t s' res :
+  SInv ns0 s -> heldg s = [] -> try_allocation c s t = (s', res) -> res <> TWait.
+Proof.
+  intros (_ & _ & Hac) Hh E. rewrite Hh in Hac. simpl in Hac. unfold try_allocation in E.
+  destruct (schedule_task c s t) as [[e off]|[[[off co] tg] [sl|]]].
+  - injection E as _ <-. discriminate.
+  - injection E as _ <-. discriminate.
+  - rewrite Hac in E. simpl in E. injection E as _ <-. discriminate.
+Qed.
